@@ -45,6 +45,16 @@ Definition node_valid (c : cfg) (node : Z) : bool := negb ((node <? 0) || (2 ^ n
 Definition seed (c : cfg) (min : Z) : st := {| time := f_time (id_fields c min); step := f_step (id_fields c min) |}.
 Definition new_node (c : cfg) (node min : Z) : option st := if node_valid c node then Some (seed c min) else None.
 
+(* ---------------------------------------------------------------- Setup (UseEpoch / UseNodeMode / NodeAtLowest) *)
+Inductive opt := OEpoch (ms : Z) | ONodeMode (m : Z) | OLowest.
+Definition apply_opt (c : cfg) (o : opt) : cfg :=
+  match o with
+  | OEpoch ms => {| epoch := ms; nb := nb c; lowest := lowest c |}
+  | ONodeMode m => {| epoch := epoch c; nb := (if (m =? 8) || (m =? 9) then m else 10); lowest := lowest c |}
+  | OLowest => {| epoch := epoch c; nb := nb c; lowest := true |}
+  end.
+Definition setup (c : cfg) (opts : list opt) : cfg := fold_left apply_opt opts c.
+
 (* ---------------------------------------------------------------- HardNode.Generate *)
 Definition hard_generate (c : cfg) (s : st) (clk : Z) : st :=
   let now := wrap64 (clk - epoch c) in
@@ -261,4 +271,16 @@ Lemma hard_generate_ideal c s clk :
   hard_generate c s clk = generate s (clk - epoch c).
 Proof.
   intros H1 H2. unfold hard_generate, generate. rewrite (wrap64_small _ H1), (wrap64_small _ H2). reflexivity.
+Qed.
+
+(* every configuration reachable through Setup has one of the three node widths *)
+Definition width_ok (c : cfg) : Prop := nb c = 8 \/ nb c = 9 \/ nb c = 10.
+Lemma width_cfg_ok c : width_ok c -> cfg_ok c.
+Proof. unfold width_ok, cfg_ok. lia. Qed.
+Theorem setup_width_ok opts : forall c, width_ok c -> width_ok (setup c opts).
+Proof.
+  unfold setup. induction opts as [|o r IH]; intros c H; cbn [fold_left]; [exact H|]. apply IH.
+  destruct o as [ms|m|]; unfold width_ok in *; cbn [apply_opt nb]; auto.
+  destruct (m =? 8) eqn:E8; [apply Z.eqb_eq in E8; cbn; lia|].
+  destruct (m =? 9) eqn:E9; [apply Z.eqb_eq in E9; cbn; lia|]. cbn. lia.
 Qed.
